@@ -24,6 +24,19 @@ def handleLine (line : String) : String :=
       id ++ "\t" ++ showM (if k.isAsync && k.isTry then specRunAT (mkWorld w) (some "main") p k
                             else specRun (mkWorld w) (some "main") p k)
     | _, _, _ => id ++ "\tbadinput"
+  | ["SPECN", id, kind, struct, world, parent] =>      -- the caller's thread is called `parent` (`-`: it has no name)
+    match Kind.ofString kind, parseInput struct, parseWorld world with
+    | some k, some p, some w =>
+      let par := if parent == "-" then none else some parent
+      id ++ "\t" ++ showM (if k.isAsync && k.isTry then specRunAT (mkWorld w) par p k else specRun (mkWorld w) par p k)
+    | _, _, _ => id ++ "\tbadinput"
+  | ["RUNN", id, kind, struct, world, parent] =>
+    match Kind.ofString kind, parseInput struct, parseWorld world with
+    | some k, some p, some w =>
+      match gen p k with
+      | .ok c => id ++ "\t" ++ showM (evalCode (mkWorld w) (if parent == "-" then none else some parent) c)
+      | .error e => id ++ "\tgenerr:" ++ e.name
+    | _, _, _ => id ++ "\tbadinput"
   | ["SPECU", id, kind, struct, world] =>      -- the caller's thread has no name
     match Kind.ofString kind, parseInput struct, parseWorld world with
     | some k, some p, some w =>
